@@ -155,3 +155,13 @@ Definition open_skeleton : list (bytes * list bytes) := [
     bs "return err";
     bs "go d.read";
     bs "return nil"])].
+
+From Scrapli Require Import DecideLang.
+From Coq Require Import String.
+Open Scope string_scope.
+(* driver/netconf/capabilities.go Driver.determineVersion *)
+Definition determine_version_code : list dstmt :=
+  [DIf (DHas "v1Dot1Cap") [DAssign "d.SelectedVersion" "V1Dot1"] [DIf (DHas "v1Dot0Cap") [DAssign "d.SelectedVersion" "V1Dot0"] [DReturn "error"]]; DSwitch "d.PreferredVersion" [(["V1Dot0"], [DIf (DHas "v1Dot0Cap") [DAssign "d.SelectedVersion" "V1Dot0"] [DReturn "error"]]); (["V1Dot1"], [DIf (DHas "v1Dot1Cap") [DAssign "d.SelectedVersion" "V1Dot1"] [DReturn "error"]])]; DSwitch "d.SelectedVersion" [(["V1Dot0"], [DAssign "d.Channel.PromptPattern" "ncPatterns.v1Dot0Delim"]); (["V1Dot1"], [DAssign "d.Channel.PromptPattern" "ncPatterns.v1Dot1Delim"])]; DReturn "nil"].
+(* channel/channel.go Channel.GetTimeout *)
+Definition get_timeout_code : list dstmt :=
+  [DIf (DEq "t" "-1") [DReturn "c.TimeoutOps"] []; DIf (DEq "t" "0") [DReturn "util.MaxTimeout * time.Second"] []; DReturn "t"].
